@@ -363,12 +363,92 @@ def r5(F, rep):
         raise AnalysisBroken("C18-R5: only %d arithmetic uses of colvar::period / wrap_center found" % n)
 
 
+def r7(F, rep):
+    rep.rule("C18-R7", "the minimum image is taken along lattice vectors: in colvarproxy_system::position_distance() each image count "
+                       "(the local computed from reciprocal_cell_K) multiplies components of unit_cell_K only, and the component "
+                       "of unit_cell_K that is subtracted from a component of the difference is the same component -- the "
+                       "subtracted vector is n_x a + n_y b + n_z c, a lattice vector, also for non-orthorhombic cells")
+    from .rules_c10 import lvalue_writes
+    f = F.one("colvarproxy_system::position_distance")
+    shift = {}
+    for v in f.walk():
+        if v["k"] == "VarDecl" and v.get("st") == "local" and X.kids(v):
+            ks = {m["n"][-1] for m in f.walk(X.kids(v)[0]) if m["k"] == "MemberExpr" and (m.get("n") or "").startswith("reciprocal_cell_")}
+            if len(ks) == 1:
+                shift[v["d"]] = ks.pop()
+    # the three counts may also be packed into one vector local: its components map to the cell vectors in argument order
+    vshift = {}
+    for v in f.walk():
+        if v["k"] == "VarDecl" and v.get("st") == "local" and X.kids(v) and v["d"] not in shift:
+            init = X.strip(X.kids(v)[0])
+            args = X.call_args(init) if init["k"] in ("CXXConstructExpr", "CXXTemporaryObjectExpr") else []
+            ks = []
+            for a in args:
+                mm = [m["n"][-1] for m in f.walk(a) if m["k"] == "MemberExpr" and (m.get("n") or "").startswith("reciprocal_cell_")]
+                ks.append(mm[0] if len(set(mm)) == 1 else None)
+            if len(ks) == 3 and all(ks):
+                vshift[v["d"]] = dict(zip(("x", "y", "z"), ks))
+    if len(shift) < 3 and not vshift:
+        raise AnalysisBroken("C18-R7: the three image counts computed from reciprocal_cell_* were not found")
+
+    def terms(n, out):
+        n = X.strip(n)
+        if n["k"] == "BinaryOperator" and n.get("op") == "+":
+            for k in X.kids(n):
+                terms(k, out)
+        elif n["k"] == "CXXOperatorCallExpr" and n.get("op") == "+" and len(X.call_args(n)) == 2:
+            for k in X.call_args(n):
+                terms(k, out)
+        else:
+            out.append(n)
+    n = 0
+    for w, t in lvalue_writes(f):
+        tk = X.key(t, f)
+        if not tk.startswith("diff") or w.get("op") not in ("-=",):
+            continue
+        comp = tk.split(".")[-1] if "." in tk else None
+        rhs = X.kids(w)[1] if w["k"] in ("CompoundAssignOperator", "BinaryOperator") else X.call_args(w)[1]
+        ts = []
+        terms(rhs, ts)
+        for term in ts:
+            cells = [m for m in f.walk(term) if m["k"] == "MemberExpr" and (m.get("n") or "").startswith("unit_cell_")]
+            if not cells:
+                continue
+            n += 1
+            used = {shift[x["d"]] for x in f.walk(term) if x["k"] == "DeclRefExpr" and x.get("d") in shift}
+            for x in f.walk(term):
+                if x["k"] == "DeclRefExpr" and x.get("d") in vshift:
+                    par = f.parent(x)
+                    while par is not None and par["k"] in ("ImplicitCastExpr", "ParenExpr"):
+                        par = f.parent(par)
+                    if par is not None and par["k"] == "MemberExpr" and par.get("n") in ("x", "y", "z"):
+                        used.add(vshift[x["d"]][par["n"]])
+                    else:
+                        used |= set(vshift[x["d"]].values())     # the whole vector of counts (a dot product)
+            cellk = {m["n"][-1] for m in cells}
+            comps = set()
+            for m in f.walk(term):
+                if m["k"] == "MemberExpr" and m.get("n") in ("x", "y", "z") and X.kids(m) and X.strip(X.kids(m)[0])["k"] == "MemberExpr" and \
+                        (X.strip(X.kids(m)[0]).get("n") or "").startswith("unit_cell_"):
+                    comps.add(m["n"])
+            ok = used == cellk and len(cellk) == 1 and (comp is None or comps == {comp})
+            rep.add("C18-R7", "position_distance|%s|%s" % (comp or "vector", X.re_strip(X.key(term, f))[:50]), f.loc(w),
+                    "diff%s -= ... `%s`: image count along %s multiplies unit_cell_%s%s" % (
+                        "." + comp if comp else "", X.text(term, f)[:50], sorted(used) or "?", sorted(cellk), (" component " + ",".join(sorted(comps))) if comps else ""), ok,
+                    detail="the vector subtracted from the difference is not a lattice vector unless the cell matrix is symmetric: distances of 3-vector "
+                           "values change when an atom is moved by a whole cell vector", func=f.q)
+    if n < 3:
+        rep.add("C18-R7", "position_distance|terms", f.loc(), "position_distance() subtracts %d recognisable image terms from the difference (3 or 9 expected)" % n, False,
+                detail="the image shift is no longer written as a sum of image counts times cell vectors", func=f.q)
+
+
 def r6(F, rep):
     from .rules_c20 import self_default
     self_default(F, rep, "C18-R6", only=("period", "wrap_center"))
 
 
 def run(F, rep, tier):
+    r7(F, rep)
     r6(F, rep)
     r5(F, rep)
     r1(F, rep)
